@@ -47,7 +47,7 @@ var props = map[string]*propSpec{
 	"C11": {ID: "C11", Engine: "zsim", Profiles: []string{"buffer"}, Quick: 20, Thorough: 420},
 	"C12": {ID: "C12", Engine: "zsim", Profiles: []string{"alloc"}, Quick: 20, Thorough: 420},
 	"C13": {ID: "C13", Engine: "cachesim", Profiles: []string{"agree", "agree", "mixed"}, Quick: 25, Thorough: 420},
-	"C14": {ID: "C14", Engine: "cachesim", Profiles: []string{"ttl"}, Quick: 25, Thorough: 420},
+	"C14": {ID: "C14", Engine: "cachesim", Profiles: []string{"ttl", "ttl", "rewrite"}, Quick: 25, Thorough: 420},
 	"C15": {ID: "C15", Engine: "cachesim", Profiles: []string{"close"}, Quick: 25, Thorough: 420},
 	"C16": {ID: "C16", Engine: "zsim", Profiles: []string{"treereopen"}, Quick: 20, Thorough: 420},
 	"C17": {ID: "C17", Engine: "cachesim", Profiles: []string{"metrics"}, Quick: 25, Thorough: 420},
